@@ -26,6 +26,8 @@ KILO_UNITS = {"kw", "kwh", "kvar", "kvarh"}
 
 def check(src, rep):
     M = Model(src)
+    from sa.oneshot import rule as _one_shot
+    _one_shot(rep, M, src, ("dlde", "obis_map", "obis", "common"), "R1")
     ce = ConstEval(M)
     file = src.file(MOD)
     rep.count("modules", len(src.text))
@@ -343,6 +345,7 @@ def check(src, rep):
         ("several data sets per line", "1-0:1.8.0(1.5*kWh)1-0:2.8.0(2*kWh)\r\n0-0:1.0.0(210101000000W)\r\n", [("1-0:1.8.0", [("1.5", "kWh")]), ("1-0:2.8.0", [("2", "kWh")]), ("0-0:1.0.0", [("210101000000W", None)])]),
         ("the longest reduced address", "255-255:255.255.255*255(1.5*kWh)\r\n1-128:121.7.0*255(2*V)\r\n", [("255-255:255.255.255*255", [("1.5", "kWh")]), ("1-128:121.7.0*255", [("2", "V")])]),
         ("long values and leading zeros", "1-0:1.8.0(000000000000123.456*kWh)(" + "9" * 40 + ")\r\n", [("1-0:1.8.0", [("000000000000123.456", "kWh"), ("9" * 40, None)])]),
+        ("an empty value", "0-0:96.13.0()\r\n1-0:99.97.0(2)()(1*s)\r\n", [("0-0:96.13.0", [("", None)]), ("1-0:99.97.0", [("2", None), ("", None), ("1", "s")])]),
         ("several values", "1-0:99.97.0(2)(0-0:96.7.19)(1*s)\r\n", [("1-0:99.97.0", [("2", None)]), ("0-0:96.7.19", [("1", "s")])] if False else None),
     ]
     okb = True
